@@ -152,6 +152,11 @@ func (e *env) startRunner(dataDir string) {
 		e.cur = append([]int{}, e.sc.Init...)
 	}
 	e.ctx, e.cancel = context.WithCancel(context.Background())
+	// step-by-step mode: the loops are released explicitly, their pause is cut down so that polling does not move the clock
+	taskctl.VerifPause = 0
+	if e.sc.Gated {
+		taskctl.VerifPause = gatedPause
+	}
 	prp := new(*prunner.PipelineRunner)
 	mk := w.createTaskRunner(prp)
 	var ds store.DataStore = e.store
@@ -641,6 +646,8 @@ func (e *env) http(method, url string, body []byte) (int, []byte) {
 	return rec.Code, rec.Body.Bytes()
 }
 
+const gatedPause = time.Millisecond
+
 // gatedPoll: the loop of job j is parked at its gate (or still in its 50 ms pause): let the pause end, release one iteration
 func (e *env) gatedPoll(j int) bool {
 	w := e.w
@@ -652,7 +659,7 @@ func (e *env) gatedPoll(j int) bool {
 	if !ok {
 		return false
 	}
-	time.Sleep(50 * time.Millisecond)
+	time.Sleep(gatedPause + time.Millisecond)
 	synctest.Wait()
 	for _, f := range w.jobs[j-1].runners {
 		f.releaseGate()
